@@ -7,6 +7,7 @@ import Rtsp.Proofs.Sess.Ends
 import Rtsp.Proofs.Sess.Wf
 import Rtsp.Proofs.Sess.A2
 import Rtsp.Proofs.Sess.Reasons
+import Rtsp.Proofs.Sess.Conv
 /-
 C02 — server sessions follow the RTSP state machine; one response per request.
 
@@ -204,6 +205,16 @@ same step unless it is streaming over UDP / multicast, where only the stream tim
 ends it.  All histories of connects, requests, client-side closes and expiries. -/
 theorem invariant_all_histories (cfg : Config) (evs : List Event) :
     WFc (run cfg {} evs).1 ∧ NoLeak (run cfg {} evs).1 := run_inv wfc_init noLeak_init cfg evs
+
+/-- **one_response_per_request, one connection**: in every reachable server state with connection
+`c` open, the requests `rs` written on `c` (any number, any content) are answered as a
+`Conversation`: each is answered once, in order, with its own CSeq, as long as no response ends in an
+error; an error response is the last one — the server closes the connection and the remaining
+requests are never read. -/
+theorem conversation (cfg : Config) (evs : List Event) (c : Nat) (cn : Conn) (rs : List Request)
+    (hopen : findConn (run cfg {} evs).1 c = some cn) :
+    Conversation rs (run cfg (run cfg {} evs).1 (rs.map (.req c))).2 :=
+  Sess.conversation cfg c rs _ cn (invariant_all_histories cfg evs).1 (invariant_all_histories cfg evs).2 hopen
 
 /-- the same, spelled out for one session -/
 theorem alive_has_conn_or_udp_streaming (cfg : Config) (evs : List Event) (ss : Session)
